@@ -310,6 +310,20 @@ EvCall(e, env, st, tail) ==
            ELSE IF c.r.v THEN LET v == Ev(args[2], env, c.st, FALSE)
                               IN IF Dead(v.st) \/ IsErr(v.r) THEN v ELSE R(SomeV(v.r), v.st)
                 ELSE R(NoneV, c.st)
+    ELSE IF f = "if_error" /\ Len(args) = 3 THEN
+        \* if_error(x, msg, alt): alt (lazily, in tail position) when x is an error whose text contains msg.
+        \* TLC has no substring test: "contains" is decided only for msg equal to the text, the empty
+        \* msg, and the marker "@never" that no generated error text contains; otherwise the run is tainted.
+        LET c == Ev(args[1], env, st, FALSE)
+        IN IF Dead(c.st) THEN R(Nil, c.st)
+           ELSE IF ~IsErr(c.r) THEN R(c.r, c.st)
+           ELSE LET m == Ev(args[2], env, c.st, FALSE)
+                IN IF Dead(m.st) THEN R(Nil, m.st)
+                   ELSE IF IsErr(m.r) THEN R(m.r, m.st)
+                   ELSE IF c.r.m = "?" \/ m.r.t # "str" THEN R(Nil, Taint(m.st))
+                   ELSE IF m.r.v = c.r.m \/ m.r.v = "" THEN Ev(args[3], env, m.st, tail)
+                   ELSE IF m.r.v = "@never" THEN R(c.r, m.st)
+                   ELSE R(Nil, Taint(m.st))
     ELSE IF f = "if_error" THEN
         LET c == Ev(args[1], env, st, FALSE)
         IN IF Dead(c.st) THEN R(Nil, c.st)
